@@ -118,6 +118,10 @@ func targetSource(specs []siteSpec, detached bool) (string, []int) {
 	var rowStart []int
 	for i, sp := range specs {
 		rowStart = append(rowStart, sb.Len())
+		if detached && i == len(specs)-3 {
+			// the rest of the file says it comes from elsewhere: Line is the line a position is REPORTED at
+			sb.WriteString("//line relocated.go:5000\n")
+		}
 		open, sep, close := "(", ", ", ")"
 		if detached {
 			if i%2 == 0 {
@@ -155,6 +159,7 @@ type tgt struct {
 	t     *hutil.Target
 	specs []siteSpec
 	base  int
+	sizes types.Sizes // the RunContext's Sizes for this file (Type.Size must follow them)
 	byPos map[int]*filt.Site
 	byJ   map[int][]*filt.Site
 }
@@ -295,22 +300,80 @@ func (g *gen) constFor(kind int) *filt.DExpr {
 	case 0:
 		return filt.Int(int64(g.lines[g.rng.Intn(len(g.lines))] + g.rng.Intn(3) - 1))
 	case 1:
-		return filt.Int(g.pick(sizeConsts))
+		if c := g.pick(sizeConsts); g.rng.Intn(4) == 0 {
+			return g.foldedInt(c)
+		} else {
+			return filt.Int(c)
+		}
 	case 2:
 		c := g.pick(intConsts)
-		if g.rng.Intn(6) == 0 {
-			// a constant expression that is folded by go/types before irconv sees it
-			return filt.RawInt(fmt.Sprintf("(%d + 1)", c-1), c)
+		if g.rng.Intn(3) == 0 {
+			return g.foldedInt(c)
 		}
 		return filt.Int(c)
 	default:
 		s := g.texts[g.rng.Intn(len(g.texts))]
-		if g.rng.Intn(6) == 0 && len(s) > 1 {
-			return filt.RawStr(fmt.Sprintf("%q + %q", s[:1], s[1:]), s)
+		if g.rng.Intn(3) == 0 {
+			return g.foldedStr(s)
 		}
 		return filt.Str(s)
 	}
 }
+
+// foldedInt: a constant expression of value c that go/types folds before irconv sees it -- every way of spelling an integer
+// literal, arithmetic, shifts, conversions, len of a constant string, a named constant of the rules file
+func (g *gen) foldedInt(c int64) *filt.DExpr {
+	var forms []string
+	if c >= 0 {
+		for st := 1; st < nIntStyles; st++ {
+			forms = append(forms, spellInt(c, st, g.rng))
+		}
+		forms = append(forms, fmt.Sprintf("%d << 0", c), fmt.Sprintf("+%d", c), fmt.Sprintf("%d.0", c), fmt.Sprintf("1e0 * %d", c))
+		if c <= 12 {
+			forms = append(forms, fmt.Sprintf("len(%q)", strings.Repeat("z", int(c))))
+		}
+		if c%8 == 0 {
+			forms = append(forms, fmt.Sprintf("%d << 3", c/8))
+		}
+	} else {
+		forms = append(forms, fmt.Sprintf("-(%d)", -c), fmt.Sprintf("0 - %s", spellInt(-c, 1+g.rng.Intn(5), g.rng)), fmt.Sprintf("-%s", spellInt(-c, 4, g.rng)))
+	}
+	forms = append(forms, fmt.Sprintf("(%d + 1)", c-1), fmt.Sprintf("int(%d)", c), fmt.Sprintf("(%d)", c), fmt.Sprintf("%d * 2 / 2", c))
+	if name, ok := ruleFileIntConsts[c]; ok {
+		forms = append(forms, name)
+	}
+	return filt.RawInt(forms[g.rng.Intn(len(forms))], c)
+}
+
+// foldedStr: a constant expression of value s
+func (g *gen) foldedStr(s string) *filt.DExpr {
+	forms := []string{spellStr(s, 1), spellStr(s, 2), "(" + strconv.Quote(s) + ")", "dsl.MatchedText(" + strconv.Quote(s) + ")", strconv.Quote(s) + " + \"\""}
+	if len(s) > 1 {
+		forms = append(forms, fmt.Sprintf("%q + %q", s[:1], s[1:]), fmt.Sprintf("%s + %s", spellStr(s[:len(s)-1], 1), spellStr(s[len(s)-1:], 2)))
+	}
+	if name, ok := ruleFileStrConsts[s]; ok {
+		forms = append(forms, name)
+	}
+	return filt.RawStr(forms[g.rng.Intn(len(forms))], s)
+}
+
+// named constants declared at the top of every rules file of the random trees / law families (typed, untyped, iota)
+var ruleFileIntConsts = map[int64]string{8: "kEight", 7: "kSeven", 0: "kZero", 1: "kOne", 2: "kTwo", 97: "kRune", 16: "kTyped16", -3: "kMinus3"}
+var ruleFileStrConsts = map[string]string{"abc": "kAbc", "": "kEmpty", "gv": "kGv"}
+
+const constPrelude = `
+const kEight = 8
+const kSeven, kRune = 7, 'a'
+const (
+	kZero = iota
+	kOne
+	kTwo
+)
+const kTyped16 int = 1 << 4
+const kMinus3 = -3
+const kAbc, kEmpty = "abc", ""
+const kGv dsl.MatchedText = "g" + "v"
+`
 
 // cmpLeaf: a comparison over x, y or zs
 func (g *gen) cmpLeaf() *filt.DExpr {
@@ -786,12 +849,12 @@ func main() {
 	// older, shorter one (the engine slices the captures that lie inside it and prints the others)
 	var tgts []*tgt
 	nSites := 0
-	addTarget := func(name string, specs []siteSpec, t *hutil.Target, err error) {
+	addTarget := func(name string, specs []siteSpec, sizes types.Sizes, t *hutil.Target, err error) {
 		if err != nil {
 			fmt.Fprintln(os.Stderr, err)
 			os.Exit(3)
 		}
-		tg := &tgt{name: name, t: t, specs: specs, base: nSites}
+		tg := &tgt{name: name, t: t, specs: specs, base: nSites, sizes: sizes}
 		tg.byPos, tg.byJ = filt.IndexSites(t)
 		for j := 0; j < W; j++ {
 			if len(tg.byJ[j]) != len(specs) {
@@ -804,17 +867,18 @@ func main() {
 	}
 	diskSrc, _ := targetSource(siteSpecs, false)
 	t, err := hutil.CheckTarget(*tmp, "target/target.go", []byte(diskSrc))
-	addTarget("disk", siteSpecs, t, err)
+	amd64, i386 := types.SizesFor("gc", "amd64"), types.SizesFor("gc", "386")
+	addTarget("disk", siteSpecs, amd64, t, err)
 	detSrc, rowStart := targetSource(detachedSpecs, true)
 	mt, err := filt.CheckDetachedTarget(filepath.Join(*tmp, "detached", "never_saved.go"), []byte(detSrc), nil)
-	addTarget("mem", detachedSpecs, mt, err)
+	addTarget("mem", detachedSpecs, i386, mt, err) // analysed for a 32-bit platform: other sizes of int, pointers, slices, strings
 	st, err := filt.CheckDetachedTarget(filepath.Join(*tmp, "detached", "older_on_disk.go"), []byte(detSrc), []byte(detSrc[:rowStart[len(detachedSpecs)/2]]))
-	addTarget("stale", detachedSpecs, st, err)
+	addTarget("stale", detachedSpecs, amd64, st, err)
 
 	// runTargets runs the engine over the targets in order (one sequence of matches: a panic ends it)
 	runTargets := func(e *ruleguard.Engine, sink func(r hutil.Report, j, site int)) string {
 		for _, tg := range tgts {
-			reports, pmsg := hutil.Run(e, tg.t, 0, "", nil)
+			reports, pmsg := runWithSizes(e, tg.t, tg.sizes)
 			for _, r := range reports {
 				s := tg.byPos[r.Pos]
 				if s == nil {
@@ -857,7 +921,6 @@ func main() {
 		}
 	}
 
-	sizes := types.SizesFor("gc", "amd64")
 	lineSet := map[int]bool{}
 	textSet := map[string]bool{}
 	factsAt := map[[2]int]siteFacts{}
@@ -866,7 +929,7 @@ func main() {
 	}
 	var respelled []respelt // captures whose Text is not their source spelling
 	for _, tg := range tgts {
-		t := tg.t
+		t, sizes := tg.t, tg.sizes
 		// the bytes the file system holds at the target's path
 		disk, _ := os.ReadFile(t.Path)
 		enc.Encode(map[string]interface{}{"k": "file", "target": tg.name, "first_site": tg.base, "sites": len(tg.specs), "disk": string(disk)})
@@ -1273,7 +1336,7 @@ func main() {
 			c.J = c.wantJ
 			rules[k] = filt.Rule{Name: fmt.Sprintf("g%d", c.Idx), Pattern: fmt.Sprintf("p%d($x, $y, $*zs)", c.J), Where: c.d}
 		}
-		src := filt.RulesFile(prelude, rules)
+		src := filt.RulesFile(prelude+constPrelude, rules)
 		irf, cerr := filt.ConvertRules(src)
 		if cerr == nil {
 			byName := map[string]int{}
@@ -1429,3 +1492,31 @@ func main() {
 }
 
 var runBatchOne func(c *ruleCase)
+
+// runWithSizes: hutil.Run with the platform sizes of the RunContext chosen by the caller; the reports delivered before a
+// panic are kept.
+func runWithSizes(e *ruleguard.Engine, t *hutil.Target, sizes types.Sizes) (reports []hutil.Report, panicMsg string) {
+	defer func() {
+		if r := recover(); r != nil {
+			panicMsg = fmt.Sprint(r)
+		}
+	}()
+	ctx := &ruleguard.RunContext{Pkg: t.Pkg, Types: t.Info, Sizes: sizes, Fset: t.Fset,
+		Report: func(data *ruleguard.ReportData) {
+			r := hutil.Report{Message: data.Message, Line: data.RuleInfo.Line}
+			if data.RuleInfo.Group != nil {
+				r.Group = data.RuleInfo.Group.Name
+			}
+			if data.Node == nil {
+				r.NilNode = true
+			} else {
+				r.Pos = t.Fset.Position(data.Node.Pos()).Offset
+				r.End = t.Fset.Position(data.Node.End()).Offset
+			}
+			reports = append(reports, r)
+		}}
+	if err := e.Run(ctx, t.File); err != nil {
+		return reports, "run error: " + err.Error()
+	}
+	return reports, ""
+}
